@@ -821,6 +821,18 @@ class Interp:
         return res
 
     def compare(self, op, a, b, lineno=None):
+        if op in ("In", "NotIn") and hasattr(b, "contains"):
+            r = b.contains(self, a)
+            return r if op == "In" else (Not(r) if is_sym(r) else (not r))
+        if op in ("In", "NotIn") and isinstance(b, SymList):
+            # membership in a list of symbolic length: r <-> exists k < count. b[k] == a   (Skolem witness + intro facts)
+            c = self.ctx
+            r, w = c.fresh_bool("member"), c.fresh_int("member_at")
+            eq = lambda k: M.scalar_cmp("Eq", b.at(k), a)
+            c.assume(Implies(r, And(in_range(w, b.count), B(eq(w)))))
+            c.assume(Forall(lambda k: Implies(And(in_range(k, b.count), B(eq(k))), r), triggers=[], name="member.intro"))
+            c.index_terms.append(w)
+            return r if op == "In" else Not(r)
         if op in ("In", "NotIn"):
             if isinstance(b, (list, tuple, dict, str, set)) and not is_sym(a):
                 r = a in b
